@@ -91,47 +91,24 @@ Print Assumptions c18_replay_preinit.
 
 (* ---- per-entry clauses on the reference run ------------------------------------------------------ *)
 
-Theorem c18_result_class : forall ck, (forall s x, ck (set_checksum s x) = ck s) ->
+(* for every entry k of the log applied one at a time (pre = state before, post = state after, r = result):
+   the result is exactly one of the four classes; Changed raises the revision by exactly one;
+   Updated keeps the revision and the logical state; Noop and Rejected leave the state untouched
+   (but for applied index and checksum); while the revision is 0 the state is ClusterState{} and
+   nothing was persisted; every persisted / published state passes Validate, carries its own
+   checksum, and its applied index is the entry's Raft index *)
+Theorem c18_step_contract : forall ck, (forall s x, ck (set_checksum s x) = ck s) ->
   forall log, StronglySorted N.lt (map e_idx log) -> forall k, (k < length log)%nat ->
-  r_class (R_ref ck log k) = cChanged \/ r_class (R_ref ck log k) = cUpdated
-  \/ r_class (R_ref ck log k) = cNoop \/ r_class (R_ref ck log k) = cRejected.
-Proof. exact model_result_class. Qed.
-Print Assumptions c18_result_class.
-
-Theorem c18_revision_plus_one : forall ck, (forall s x, ck (set_checksum s x) = ck s) ->
-  forall log, StronglySorted N.lt (map e_idx log) -> forall k, (k < length log)%nat ->
-  r_class (R_ref ck log k) = cChanged -> s_rev (S_ref ck log (S k)) = s_rev (S_ref ck log k) + 1.
-Proof. exact model_revision_plus_one. Qed.
-Print Assumptions c18_revision_plus_one.
-
-Theorem c18_updated_keeps_revision : forall ck, (forall s x, ck (set_checksum s x) = ck s) ->
-  forall log, StronglySorted N.lt (map e_idx log) -> forall k, (k < length log)%nat ->
-  r_class (R_ref ck log k) = cUpdated ->
-  s_rev (S_ref ck log (S k)) = s_rev (S_ref ck log k) /\ logical_eq (S_ref ck log (S k)) (S_ref ck log k) = true.
-Proof. exact model_updated_keeps_revision. Qed.
-Print Assumptions c18_updated_keeps_revision.
-
-(* rejected and no-op commands leave the state untouched (but for applied index and checksum) *)
-Theorem c18_rejected_untouched : forall ck, (forall s x, ck (set_checksum s x) = ck s) ->
-  forall log, StronglySorted N.lt (map e_idx log) -> forall k, (k < length log)%nat ->
-  r_class (R_ref ck log k) = cNoop \/ r_class (R_ref ck log k) = cRejected ->
-  body_eq (S_ref ck log (S k)) (S_ref ck log k) = true.
-Proof. exact model_rejected_untouched. Qed.
-Print Assumptions c18_rejected_untouched.
-
-(* every persisted / published state passes Validate and carries its own checksum *)
-Theorem c18_persisted_valid : forall ck, (forall s x, ck (set_checksum s x) = ck s) ->
-  forall log, StronglySorted N.lt (map e_idx log) -> forall k, (k < length log)%nat ->
-  s_rev (S_ref ck log (S k)) <> 0 ->
-  Validate (S_ref ck log (S k)) = true /\ ckokS ck (S_ref ck log (S k)) = true.
-Proof. exact model_persisted_valid. Qed.
-Print Assumptions c18_persisted_valid.
-
-Theorem c18_preinit_nothing : forall ck, (forall s x, ck (set_checksum s x) = ck s) ->
-  forall log, StronglySorted N.lt (map e_idx log) -> forall k, (k < length log)%nat ->
-  s_rev (S_ref ck log (S k)) = 0 -> S_ref ck log (S k) = empty_state.
-Proof. exact model_preinit_nothing. Qed.
-Print Assumptions c18_preinit_nothing.
+  let pre := S_ref ck log k in let post := S_ref ck log (S k) in let r := R_ref ck log k in
+  (r_class r = cChanged \/ r_class r = cUpdated \/ r_class r = cNoop \/ r_class r = cRejected)
+  /\ (r_class r = cChanged -> s_rev post = s_rev pre + 1)
+  /\ (r_class r = cUpdated -> s_rev post = s_rev pre /\ logical_eq post pre = true)
+  /\ (r_class r = cNoop \/ r_class r = cRejected -> body_eq post pre = true)
+  /\ (s_rev post = 0 -> post = empty_state)
+  /\ (s_rev post <> 0 -> Validate post = true /\ ckokS ck post = true /\ r_rev r = s_rev post
+                          /\ s_applied post = fst (fst (entry_at log k)) /\ r_applied r = s_applied post).
+Proof. exact model_step_contract. Qed.
+Print Assumptions c18_step_contract.
 
 (* ---- the monitor ------------------------------------------------------------------------------------ *)
 
